@@ -50,7 +50,7 @@ OPS = {
     "tousize": ("OToUsize", "s"), "tou8": ("OToU8", "s"), "intousize": ("OIntoUsize", "n"),
     "intoraw": ("OIntoRaw", "n"), "hasheq": ("OHashEq", "ss"), "mapget": ("OMapGet", "ns"),
     "contains": ("OContains", "nss"), "conv": ("OConv", "ns"), "all": ("OAll", ""),
-    "frombv": ("OFromBv", "nl"), "xlate": ("OXlate", "ns"), "xlatei": ("OXlateI", "s"),
+    "frombv": ("OFromBv", "nl"), "arr": ("OArr", "ls"), "xlate": ("OXlate", "ns"), "xlatei": ("OXlateI", "s"),
     "xcodon": ("OXCodon", "n"), "ctnew": ("OCtNew", "l"), "ctq": ("OCtQ", "s"), "ctr": ("OCtR", "n"),
     "kfrom": ("KFrom", "nns"), "kunsafe": ("KUnsafe", "nns"), "kstr": ("KStr", "nnl"),
     "kint": ("KInt", "nnnn"), "kfromseq": ("KFromSeq", "nnn"), "kmers": ("KMers", "nns"),
